@@ -39,6 +39,7 @@ class Info:
         self.fired = None
         self.kind = ""
         self.stock = None
+        self.extra_snaps = []    # (array, snapshot) of arrays outside the pool that the step works on
 
 
 class State:
@@ -479,8 +480,16 @@ def op_setitem(st, op, info):
 
 
 def _number(n):
-    """numbers reach flodym the way users write them: `a[...] = 0` (a Python int) as often as `a[...] = 2.0`"""
-    return int(n) if int(n) % 2 == 0 else float(n)
+    """numbers reach flodym the way users write them: `a[...] = 0` (a Python int) as often as `a[...] = 2.0` - or as what numpy and
+    the standard library hand back: `a[...] = counts.sum()` (np.int64), `np.float32(2)`, `Fraction(3)`"""
+    from fractions import Fraction
+    n = int(n)
+    k = abs(n) % 8
+    if k in (0, 2):
+        return n
+    if k in (1, 3):
+        return float(n)
+    return [np.int64, np.float64, np.float32, Fraction][k - 4](n)
 
 
 def op_set_values(st, op, info):
@@ -494,6 +503,31 @@ def op_set_values(st, op, info):
     if "num" in op:
         v = _number(op["num"])
         info.kind = "set_values:num"
+    elif op.get("unconvertible") and isinstance(t.values, np.ndarray) and t.values.size >= 2:
+        # F1: an ndarray of the right shape whose elements cannot all be converted to numbers (a column read as text with a "?"
+        # in a late row).  Whether flodym stores or refuses it is left open; if it raises, the target must be what it was.
+        # Runs on a private copy of the pooled array so that an accepted text array does not enter the pool.
+        t2 = t.copy()
+        info.target = t2
+        info.extra_snaps = [(t2, snap_array(t2))]
+        flat = [float(x) for x in int_values(op.get("vseed", 0), (t.values.size,))]
+        pos = max(1, (2 * t.values.size) // 3)
+        if op["unconvertible"] == "object":
+            flat[pos] = "?"
+            v = np.array(flat, dtype=object).reshape(t.values.shape)
+        else:
+            flat = [str(int(x)) for x in flat]
+            flat[pos] = "?"
+            v = np.array(flat).reshape(t.values.shape)
+        st.fault("ndarray_with_unconvertible_element")
+        info.kind = "set_values:unconvertible"
+        if op.get("via_setitem"):
+            def thunk():
+                t2[...] = v
+            call(st, op, thunk, info)
+        else:
+            call(st, op, lambda: t2.set_values(v), info)
+        return
     else:
         shp = tshape
         sf = op.get("shape_fault")
@@ -871,32 +905,54 @@ def op_system(st, op, info):
     procs = make_processes(["sysenv", "use", "waste"])
     names = ["sysenv", "use", "waste"]
     flows, params = {}, {}
-    for n, a in enumerate(ok[:4]):
+    for n, a in enumerate(ok[:6]):
         info.inputs.append(a)
-        if n % 2 == 0:
+        if n % 2 == 0 or n >= 3:
+            # every process gets several contributions (of differing dimensionality): 0: sysenv->use, 2: waste->sysenv, 3: sysenv->use,
+            # 4: use->waste, 5: waste->sysenv
             f = Flow(dims=a.dims, values=a.values, name=f"f{n}", from_process=procs[names[n % 3]], to_process=procs[names[(n + 1) % 3]])
             flows[f.name] = f
-        else:
+        if n % 2 == 1:
             params[f"p{n}"] = Parameter(dims=a.dims, values=a.values, name=f"p{n}")
     if not flows:
         return
     info.dims_passed = [ds]
     info.raw.append(("dimset", ds, dims_sig(ds), lambda s_, o: dims_sig(o) == s_))
+    then = op.get("then", "build")
 
-    def thunk():
-        sys_ = MFASystem(dims=ds, parameters=params, processes=procs, flows=flows, stocks={})
-        then = op.get("then", "build")
+    def build():
+        return MFASystem(dims=ds, parameters=params, processes=procs, flows=flows, stocks={})
+
+    def act(sys_):
         if then == "dict_numpy":
             convert_to_dict(sys_, type="numpy")
         elif then == "dict_pandas":
             convert_to_dict(sys_, type="pandas")
         elif then == "new_array":
             info.results = [sys_.get_new_array(dim_letters=tuple(ds.letters[:2]))]
-        elif then == "check":
-            sys_.check_mass_balance(raise_error=False)
-            sys_.check_flows()
+        elif then in ("check", "check_twice"):
+            for _ in range(2 if then == "check_twice" else 1):
+                sys_.check_mass_balance(raise_error=False)
+                sys_.check_flows()
         return sys_
-    call(st, op, thunk, info)
+
+    if then == "build" or st.cur % 2:
+        call(st, op, lambda: act(build()), info)
+    else:
+        # the system exists already: what the checks / exports see are the system's own Flow and Parameter objects
+        try:
+            with np.errstate(all="ignore"), warnings.catch_warnings():
+                warnings.simplefilter("ignore")
+                sys_ = build()
+        except INTERRUPTS:
+            raise
+        except Exception:  # noqa
+            return
+        for nm, f in list(sys_.flows.items()) + list(sys_.parameters.items()):
+            info.raw.append((f"flow / parameter '{nm}' of the system", f, snap_array(f), lambda s_, o: same_as_snap(s_, o) ))
+            names_ = (nm, f.name)
+            info.raw.append((f"name of '{nm}'", f, f.name, lambda s_, o: o.name == s_))
+        call(st, op, lambda: act(sys_), info)
     st.probe("system_built_from_pooled_arrays_" + info.outcome)
     if info.outcome != "ret":
         info.results = []
